@@ -59,4 +59,59 @@ pub mod c19_std {
     {
         m.into_values().collect()
     }
+
+    // ---- ordering of strings ---------------------------------------------------------------------------
+    // `str_lt(a, b)`: String a sorts strictly before String b under `<String as Ord>::cmp` (std: "Strings are
+    // ordered lexicographically by their byte values").  ASSUMED: it is a strict total order on character
+    // sequences (it depends on the characters only; two Strings with the same characters compare Equal).
+    pub uninterp spec fn str_lt(a: Seq<char>, b: Seq<char>) -> bool;
+
+    pub axiom fn axiom_str_lt_irrefl(a: Seq<char>)
+        ensures !str_lt(a, a);
+
+    pub axiom fn axiom_str_lt_trans(a: Seq<char>, b: Seq<char>, c: Seq<char>)
+        requires str_lt(a, b), str_lt(b, c),
+        ensures str_lt(a, c);
+
+    pub axiom fn axiom_str_lt_total(a: Seq<char>, b: Seq<char>)
+        ensures str_lt(a, b) || a == b || str_lt(b, a);
+
+    // ---- Vec::sort / Vec::dedup --------------------------------------------------------------------------
+    /// no element is Greater than a later one (under the element type's `Ord::cmp`, as modelled by vstd's cmp_spec)
+    pub open spec fn sorted_by_cmp<T: Ord>(s: Seq<T>) -> bool {
+        forall|i: int, j: int| 0 <= i < j < s.len() ==>
+            vstd::std_specs::cmp::OrdSpec::cmp_spec(&#[trigger] s[i], &#[trigger] s[j]) != core::cmp::Ordering::Greater
+    }
+
+    // `v.sort()` (`<[T]>::sort` through Vec's DerefMut).  std: "Sorts the slice ... This sort is stable"; the
+    // result is a permutation of the input that is ordered by `Ord::cmp`.  Contract (weaker than "permutation"):
+    // same length, same elements, ordered.  Used through ONE logged rewrite `V.sort();` => `vec_sort(&mut V);`
+    // (Verus loses the connection between a Vec and the `&mut [T]` it derefs to; the body calls the real `sort`).
+    #[verifier::external_body]
+    pub fn vec_sort<T: Ord>(v: &mut Vec<T>)
+        ensures
+            final(v)@.len() == old(v)@.len(),
+            forall|x: T| #[trigger] final(v)@.contains(x) <==> old(v)@.contains(x),
+            <T as vstd::std_specs::cmp::OrdSpec>::obeys_cmp_spec() ==> sorted_by_cmp(final(v)@),
+    {
+        v.sort()
+    }
+
+    /// `Vec::dedup` as a function on sequences: keep an element iff it is the first one or differs (`==`,
+    /// modelled by eq_spec) from its predecessor
+    pub open spec fn dedup_seq<T: PartialEq>(s: Seq<T>) -> Seq<T>
+        decreases s.len(),
+    {
+        if s.len() <= 1 {
+            s
+        } else {
+            let d = dedup_seq(s.drop_last());
+            if vstd::std_specs::cmp::PartialEqSpec::eq_spec(&s[s.len() - 2], &s.last()) { d } else { d.push(s.last()) }
+        }
+    }
+
+    // `Vec::dedup`: "Removes consecutive repeated elements in the vector according to the PartialEq trait
+    // implementation.  If the vector is sorted, this removes all duplicates."
+    pub assume_specification<T: PartialEq, A: Allocator> [ Vec::<T, A>::dedup ] (v: &mut Vec<T, A>)
+        ensures <T as vstd::std_specs::cmp::PartialEqSpec>::obeys_eq_spec() ==> final(v)@ == dedup_seq(old(v)@);
 }
